@@ -196,8 +196,11 @@ def make_distance_matrix_from_adjacency_matrix(AG):
     # Convert adjacency matrix to SciPy format if needed.
     if sps.issparse(AG):
         # csgraph's dense code path (chosen for small or dense graphs) only
-        # accepts CSR, CSC and LIL matrices.
-        AG = sps.csr_matrix(AG)
+        # accepts CSR, CSC and LIL matrices, and csgraph reads explicitly
+        # stored zeros as edges; they are ordinary zeros of the adjacency
+        # matrix. Work on a copy so that the caller's matrix is left alone.
+        AG = sps.csr_matrix(AG, copy=True)
+        AG.eliminate_zeros()
     elif not isinstance(AG, np.ndarray):
         AG = np.asarray(AG)
 
